@@ -12,7 +12,7 @@ CHECKS = {
              text="For generated a, b in Z_r* and every non-identity representation of a*P1 and b*P2, the 384 bytes returned by each entry point are compared with a second implementation written from the standard: affine Miller loop over the plain binary expansion of 6t+2 in F_q[w]/(w^12+2) over ark-ff's generic Fp, Frobenius line corrections, plain (q^12-1)/r exponentiation, standard coefficient order. The oracle itself reproduces the published SM9 vectors at start-up. Exploration only.",
              ref="6/C02"),
  "C03": dict(technique="property-based testing: cross-entry-point differential + representation-independence metamorphic relation + generated call histories on one prepared value",
-             text="Inputs over all 6x6 representation cells (identities in three forms) must give byte-identical values from the three entry points, equal to the value for the normalised presentation of the same elements and to one for identities; generated histories (up to 16 calls, up to 4 clones taken at random points, 1..8 inputs with repeats) on one prepared G2 value must answer pairing(P_i,Q) at every position. Exploration only.",
+             text="Inputs over all 6x6 representation cells (identities in three forms) must give byte-identical values from the three entry points, equal to the value for the normalised presentation of the same elements and to one for identities; generated histories (up to 16 calls, up to 4 clones taken at random points, clone_from into existing slots from values prepared from Q / from a second point Q2 (identity half of the time) / from other slots, 1..8 inputs with repeats) on prepared G2 values must answer pairing(P_i, owner point) at every position. Exploration only.",
              ref="6/C03"),
  "C11": dict(technique="property-based testing: Gt operations vs. polynomial-basis reference arithmetic on the parsed encodings, group/exponent laws, discrete-log model for ==",
              text="g and h are generated expression trees (pairing values from any entry point, products, powers, inverses) with tracked discrete logs; g*h, inverse(g), g^a are recomputed from the parsed 384-byte encodings by schoolbook multiplication, Gaussian-elimination inverse and plain square-and-multiply in F_q[w]/(w^12+2) and compared byte for byte; the laws of the statement are checked on library values; == must agree with encoding equality and with discrete-log equality; every limb must be < q. Exploration only.",
